@@ -363,6 +363,8 @@ def build_topology(g, prop):
 
 def make_case(prop, rng, tier, opts=None):
     opts = dict(opts or {})
+    if opts.get("conv_bias_p") and rng.random() < opts["conv_bias_p"]:
+        opts["conv_bias"] = True
     lat_name = rng.choice(["dyadic", "dyadic", "unit", "decimal", "coprime"])
     if prop == "C17" and rng.random() < 0.5:
         lat_name = rng.choice(["decimal", "coprime"])
